@@ -315,6 +315,8 @@ pub trait TypeOps: Sync {
     fn probe(&self, bytes: &[u8]) -> Probe;
     fn probe_mut(&self, bytes: &mut [u8]) -> Probe;
     fn new_in_place(&self, bytes: &mut [u8], d: &D) -> Result<(), Error>;
+    /// the same through `FlatWrap::new_in_place` over `&mut [u8]`; on `Ok`, `size()` read through the wrapper's `Deref`
+    fn wrap_new_in_place(&self, bytes: &mut [u8], d: &D) -> Result<usize, Error>;
     /// `from_mut_bytes` (must succeed) then `assign_in_place`
     fn assign_in_place(&self, bytes: &mut [u8], d: &D) -> Result<Result<(), Error>, Error>;
     fn default_in_place(&self, bytes: &mut [u8]) -> Option<Result<(), Error>>;
@@ -381,6 +383,10 @@ impl<T: Flat + Walk + DynTarget + Editable + ?Sized> TypeOps for Ops<T> {
     }
     fn new_in_place(&self, bytes: &mut [u8], d: &D) -> Result<(), Error> {
         T::new_in_place(bytes, de::<T>(d)).map(|_| ())
+    }
+    fn wrap_new_in_place(&self, bytes: &mut [u8], d: &D) -> Result<usize, Error> {
+        let w = flatty::FlatWrap::<T, &mut [u8]>::new_in_place(bytes, de::<T>(d))?;
+        Ok(w.size())
     }
     fn assign_in_place(&self, bytes: &mut [u8], d: &D) -> Result<Result<(), Error>, Error> {
         let v = T::from_mut_bytes(bytes)?;
